@@ -77,3 +77,39 @@ def show(a: Lin) -> str:
             parts.append(f"{v:+d}*{k}")
     s = " ".join(parts)
     return s[1:] if s.startswith("+") else s
+
+
+def local_subst(fn_node, keep=()):
+    """subst function for lin(): expands names assigned exactly once in fn_node to a pure arithmetic
+    expression (+ - * over names and int constants), so temporaries do not change a linear form."""
+    from .index import walk_local
+
+    counts = {}
+    vals = {}
+    for n in walk_local(fn_node):
+        if isinstance(n, ast.Assign):
+            for t in n.targets:
+                for x in ast.walk(t):
+                    if isinstance(x, ast.Name):
+                        counts[x.id] = counts.get(x.id, 0) + 1
+            if len(n.targets) == 1 and isinstance(n.targets[0], ast.Name):
+                vals[n.targets[0].id] = n.value
+        elif isinstance(n, (ast.AugAssign, ast.AnnAssign, ast.For, ast.comprehension, ast.NamedExpr)):
+            t = n.target
+            for x in ast.walk(t):
+                if isinstance(x, ast.Name):
+                    counts[x.id] = counts.get(x.id, 0) + 2
+
+    def pure(e):
+        return all(isinstance(x, (ast.BinOp, ast.UnaryOp, ast.Name, ast.Constant, ast.Add, ast.Sub, ast.Mult, ast.USub, ast.UAdd, ast.Load)) for x in ast.walk(e)) and isinstance(e, (ast.BinOp, ast.UnaryOp))
+
+    def subst(e, _depth=[0]):
+        if isinstance(e, ast.Name) and e.id not in keep and counts.get(e.id) == 1 and e.id in vals and pure(vals[e.id]) and _depth[0] < 6:
+            _depth[0] += 1
+            try:
+                return lin(vals[e.id], subst)
+            finally:
+                _depth[0] -= 1
+        return None
+
+    return subst
